@@ -23,6 +23,7 @@ DOC = {
         'C09.R15': 'with -L a directory is walked once, so the ignore rules applied below it must not depend on the route: the ignore stack handed to a link target is a function of the target, not of the directory that holds the link (visit_link must not pass its own stack on) - or a visit is recorded per (path, ignore stack), so that every route applies its own rules and none suppresses another, with IgnoreStack::push idempotent so that a cycle of links cannot grow the stack for ever',
         'C09.R14': 'the directory admission test (PathSelector::matches_dir: "could something below match?") is applied to directories only: its callers are visit_dir alone - applied to an input path or a link target that is a file it asks whether `file/...` is excluded and drops files that no pattern excludes',
         'C09.R13': 'ignore files as documented: IgnoreStack::push loads .gitignore and .fdignore of a directory independently of each other (neither is looked at only when the other is absent); IgnoreStack::matches lets the deepest ignore file that says anything decide (reverse iteration, a whitelist `!` match ends the search with "not ignored"), instead of "ignored by any level"',
+        'C09.R17': 'sibling agreement of the three ways a user names a directory: input paths (Walk::absolute), isolate roots (canonical_root) and the literal directory at the beginning of a --path / --exclude / --keep-path pattern are all resolved to the canonical form the scanned paths have; abs_pattern canonicalizes the directory split off the pattern and keeps the spelled form as an alternative',
         'C09.R16': 'every input path is walked on its own at level 0: in the loop of Walk::run the only decisions that skip the spawn of visit_path are the stat failure and the directory-with-depth-0 case, each with a warning; no input path is left out because of another one',
         'C09.R12': 'input paths read from the standard input (--stdin) are taken as bytes, like paths given as arguments (OsString): no UTF-8-only reader (lines / read_line / read_to_string / String::from_utf8 + unwrap) between stdin and Path; an empty line is not a path (it would mean the working directory), an empty argument is rejected, and a line with a NUL byte is filtered out before Path::from (which unwraps CString::new) sees it',
         'C09.R11': 'marking an entry as visited (follow_links) does not cut off routes that would get further: the mark is made after the route-dependent .gitignore test, and either it records the nesting level (a directory reached again at a smaller level is read again) or it is made only after the --depth test passed; directories are marked in visit_dir after the route-specific pruning tests; a smaller level always re-visits (input paths are level 0)',
@@ -56,6 +57,7 @@ def run(ctx):
     r12c(ctx)
     r12d(ctx)
     r16(ctx)
+    r17(ctx)
     r13(ctx)
     r14(ctx)
     r15(ctx)
@@ -375,6 +377,33 @@ def r16(ctx):
               'input path do not apply - leaving one out because another input path "covers" it loses `dir/.git`, `dir/ignored`, or `dir/a/b/c` under `--depth 1 dir dir/a/b`'
               % ((bad[1], bad[2], '' if bad[3] else ' without a warning') if bad else ('', '', '')))
     ctx.floor(rule, 'skip decisions in the loop over the input paths', n, 2, b.where())
+
+
+def r17(ctx):
+    """Path patterns are matched against canonical paths (links to directories resolved): the literal directory a pattern starts with is
+    brought into that form as well, the way the input paths and the isolate roots are."""
+    rule = 'C09.R17'
+    lib = ctx.lib
+    from ..callgraph import CallGraph
+    ap = ctx.need_body(rule, 'selector::PathSelector::abs_pattern')
+    if ap is None:
+        return
+    cg = CallGraph([lib])
+    reach = cg.reachable([ap.path], stop=lambda k: not k.startswith(('selector::PathSelector::', 'pattern::Pattern::')))
+    bodies = [lib.body(k) for k in sorted(reach) if k.startswith('selector::PathSelector::') and lib.body(k) is not None]
+    canon = [(x, c) for x in bodies for c in x.calls(r'path::Path::canonicalize$|config::canonical_root$|^std::fs::canonicalize$|dunce::canonicalize$')]
+    keeps = [(x, c) for x in bodies for c in x.calls(r'pattern::Pattern::or$')]
+    ok = False
+    where = ap.where()
+    for x, c in canon:
+        # what is canonicalized derives from the pattern (its literal directory), and the original pattern stays an alternative
+        sl = backslice(x, [c.args[0]])
+        if sl.has_call(r'Pattern::split_literal_dir$|Pattern::literal_dir$|Pattern::\w*literal\w*$') and any(kx is x for kx, _ in keeps):
+            ok, where = True, c.where()
+    ctx.check(ok, rule, ap.path + '|pattern-dir-canonical', where, 'the directory a path pattern starts with is resolved like the scanned paths (the unresolved spelling stays an alternative)',
+              'a path pattern is matched as it is spelled, but the scanned / reported paths have the symbolic links to directories resolved: with `photos -> disk`, '
+              '`group photos --exclude "photos/private/**"` excludes nothing (the files are /…/disk/private/…) and `remove --keep-path "photos/originals/**"` protects nothing - '
+              'the file the user meant to keep is removed; the input paths (Walk::absolute) and the isolate roots (canonical_root) are resolved, the patterns are not')
 
 
 def r12c(ctx):
@@ -910,6 +939,12 @@ def r5(ctx):
         ctx.check(used == must, rule, b.path + '|anchoring', b.where(), ('patterns anchored with abs_pattern(base_dir, _)' if must else 'name patterns are not anchored'),
                   ('relative path patterns are not anchored at the base directory' if must else 'name patterns are anchored like paths'))
     ap = ctx.need_body(rule, sel + 'abs_pattern')
+    if ap is not None and not ap.calls(r'PathSelector::is_absolute$'):
+        # the anchoring proper may live in a helper of the selector that abs_pattern calls
+        for k in ap.calls(r'^selector::PathSelector::\w+$'):
+            hb = lib.body(k.path)
+            if hb is not None and hb.calls(r'PathSelector::is_absolute$'):
+                ap = hb
     if ap is not None:
         ia = ap.calls(r'PathSelector::is_absolute$')
         lit = ap.calls(r'pattern::Pattern::literal$')
@@ -940,7 +975,10 @@ def r5(ctx):
         if ib is not None:
             # absoluteness is decided on the first literal of the pattern, also when the pattern starts with a group
             peeks = [c for c in ib.calls(r'str::<impl str>::(strip_prefix|trim_start_matches)$') if any("'('" in (v or '') or '"("' in (v or '') or '"(?:"' in (v or '') for v in slice_const_values(lib, backslice(ib, c.args[1:])))]
-            ctx.check(bool(peeks), rule, ib.path + '|looks-into-groups', ib.where(), 'is_absolute skips the opening of leading groups before testing for the root',
+            pm_ = [c for c in ib.calls(r'Pattern::matches_partially$|Regex::is_partial_match$')]
+            semantic = bool(pm_) and any('MAIN_SEPARATOR' in str(v) or str(v) in ('"/"', "'/'") for c in pm_ for a in c.args[1:] for v in slice_const_values(lib, backslice(ib, [a])))
+            # (a test on what the pattern can match subsumes the two spelling tests below)
+            ctx.check(bool(peeks) or semantic, rule, ib.path + '|looks-into-groups', ib.where(), 'is_absolute skips the opening of leading groups before testing for the root',
                       'is_absolute tests only the first characters of the translated pattern: a glob that starts with an alternation of absolute paths (`{/x/a,/x/b}/**` -> `(/x/a|/x/b)/.*`) counts as '
                       'relative, gets the working directory prepended and matches nothing')
             # ... and the flag groups a regex may start with: `(?i)/abs/..`, `(?s-u:/abs/..)` - anything between `(?` and `)` / `:`
@@ -948,9 +986,17 @@ def r5(ctx):
             cv = [str(v or '') for x in ibs for c in x.calls(r'str::<impl str>::(strip_prefix|trim_start_matches|split_once|find|starts_with)$') for v in slice_const_values(lib, backslice(x, c.args[1:]))]
             generic = any(v in ("'?'", '"?"', '"(?"') for v in cv) and any(v in ("')'", '")"') for v in cv)
             generic = generic or any(c.matches(r'^regex_syntax::') for x in ibs for c in x.calls())
-            ctx.check(generic, rule, ib.path + '|skips-inline-flags', ib.where(), 'is_absolute also skips an inline flag group (`(?i)`, `(?i-u:`) in front of the root',
+            ctx.check(generic or semantic, rule, ib.path + '|skips-inline-flags', ib.where(), 'is_absolute also skips an inline flag group (`(?i)`, `(?i-u:`) in front of the root',
                       'is_absolute knows `(` and `(?:` only: an absolute --regex pattern that starts with inline flags, `(?i)/data/.*`, counts as relative and becomes `<cwd>/(?i)/data/.*`, '
                       'which matches nothing - as --path it selects nothing, as --exclude it excludes nothing, silently')
+            # ... and on what the expression can match rather than on how it is spelled: a partial match of the pattern against the root separator
+            pm = [c for c in ib.calls(r'Pattern::matches_partially$|Regex::is_partial_match$')]
+            sepv = [str(v) for c in pm for a in c.args[1:] for v in slice_const_values(lib, backslice(ib, [a]))]
+            ctx.check(bool(pm) and any('MAIN_SEPARATOR' in v or v in ('"/"', "'/'") for v in sepv), rule, ib.path + '|by-what-it-matches', (pm[0].where() if pm else ib.where()),
+                      'a pattern that can match a path beginning with the separator is absolute, however it is spelled',
+                      'is_absolute looks at the first characters of the expression only (`/`, `.*`, after `(`, `(?:`, `(?i)`): `.+/sub/.+`, `\\/tmp\\/x\\/.*` (escaped slashes), `[/]tmp/.*`, `\\S+\\.jpg` '
+                      'match absolute paths but count as relative and get the working directory prepended - as --path they select nothing, as --exclude they exclude nothing and the files end up in '
+                      'the report that is fed to `remove`')
         if lit:
             # the literal is made of exactly the text the paths are matched as (to_string_lossy): no character substitution on the way
             lsl = backslice(ap, [lit[0].args[0]])
